@@ -497,7 +497,9 @@ def invalidate(rng, root, n=1, only=None):
                 # the state with the wrong initial attribute is entered by default at start-up: an accepted document is illegal at once
                 path, cur = [], root
                 byid = dict((x.id, x) for x in nodes if x.id)
-                while cur is not None and cur.proper_children():
+                seen = set()
+                while cur is not None and cur.proper_children() and id(cur) not in seen:      # (an earlier corruption may have made the initial attributes cyclic)
+                    seen.add(id(cur))
                     if cur.kind == "state" and cur is not root: path.append(cur)
                     nxt = None
                     if cur.init: nxt = byid.get(cur.init[0])
